@@ -56,7 +56,12 @@ func newC11WireFarm(t *testing.T, n int) *c11WireFarm {
 			b, _ := io.ReadAll(r.Body)
 			f.mu.Lock()
 			k := len(f.recs)
-			f.recs = append(f.recs, c11WireRec{dial: f.conns[r.RemoteAddr], tls: isTLS, host: r.Host, path: r.URL.Path, method: r.Method, hdr: r.Header.Clone(), body: len(b) > 0})
+			la, _ := r.Context().Value(http.LocalAddrContextKey).(net.Addr)
+			ck := r.RemoteAddr + ">"
+			if la != nil {
+				ck += la.String()
+			}
+			f.recs = append(f.recs, c11WireRec{dial: f.conns[ck], tls: isTLS, host: r.Host, path: r.URL.Path, method: r.Method, hdr: r.Header.Clone(), body: len(b) > 0})
 			var rp *c11Reply
 			if k < len(f.script) {
 				rp = &f.script[k]
@@ -119,7 +124,7 @@ func (f *c11WireFarm) dial(ctx context.Context, network, addr string) (net.Conn,
 	c, err := d.DialContext(ctx, "tcp", f.pick(f.plain, addr))
 	if err == nil {
 		f.mu.Lock()
-		f.conns[c.LocalAddr().String()] = "h|" + addr
+		f.conns[c.LocalAddr().String()+">"+c.RemoteAddr().String()] = "h|" + addr
 		f.mu.Unlock()
 	}
 	return c, err
@@ -135,7 +140,7 @@ func (f *c11WireFarm) dialTLS(ctx context.Context, network, addr string) (net.Co
 		return nil, err
 	}
 	f.mu.Lock()
-	f.conns[raw.LocalAddr().String()] = "s|" + addr
+	f.conns[raw.LocalAddr().String()+">"+raw.RemoteAddr().String()] = "s|" + addr
 	f.mu.Unlock()
 	tc := tls.Client(raw, &tls.Config{InsecureSkipVerify: true, NextProtos: []string{"h2", "http/1.1"}})
 	if err := tc.HandshakeContext(ctx); err != nil {
@@ -361,7 +366,22 @@ func TestVerif_C11_loopwire(t *testing.T) {
 				b = "1"
 			}
 			enc[k] = strings.Join([]string{sch, verifh.Hex(addr), verifh.Hex(rec.path), verifh.Hex(rec.method), verifh.Hex(rec.host), b,
-				c11ShowProbes(func(key string) []string { return rec.hdr.Values(key) }, probes)}, "|")
+				c11ShowProbes(func(key string) []string {
+					if key != "Cookie" {
+						return rec.hdr.Values(key)
+					}
+					// cookie-pairs, whatever the framing (HTTP/2 sends each pair as its own field and
+					// nothing for an empty value; the server joins them again)
+					var crumbs []string
+					for _, v := range rec.hdr.Values(key) {
+						for _, c := range strings.Split(v, ";") {
+							if c = strings.Trim(c, " \t"); c != "" {
+								crumbs = append(crumbs, c)
+							}
+						}
+					}
+					return crumbs
+				}, probes)}, "|")
 			// for the oracle: the authority this request was for = what was dialled, port included
 			var uk *url.Userinfo // userinfo of the URL this request was for (decides where a Basic header may come from)
 			switch {
